@@ -105,7 +105,7 @@ def generate(seed, tier):
     return {"io": config, "cid": spec, "rows": rows, "batches": batches, "target": swarm.choice(["stream", "path"]),
             "close": True, "cid_as_path": swarm.random() < 0.2, "rows_as_iterator": swarm.random() < 0.5,
             # the caller keeps one list object per distinct row and hands the same object over again for a repeated row
-            "reuse_row_objects": swarm.random() < 0.4}
+            "reuse_row_objects": swarm.random() < 0.4, "target_exists": swarm.random() < 0.3}
 
 
 def _encodable(row, encoding):
@@ -151,6 +151,10 @@ def execute(scenario):
             fs.store("cid.csv", lib.render_delimited(tabular.cid_rows(spec), ",", '"', "\n").encode("utf-8"))
             writer_cid = "cid.csv"
             result.probe("cid-given-as-path")
+        if target != "<stream>" and scenario.get("target_exists"):
+            # the target path already holds an older, longer export: writing replaces it
+            fs.store(target, ("zz,older export\r\n" * 40).encode("ascii"))
+            result.probe("target-file-existed-before")
         run = lib.WriteRun(writer_cid, fs, target)
         if run.writer is None:
             raise core.Violation("writer-construction-failed", features, repr(lib.error_summary(run.init_error)))
@@ -271,6 +275,9 @@ def execute(scenario):
             back_source = io.StringIO(output_text, newline="")
         else:
             data = fs.files.get("out.txt")
+            if data is None:
+                raise core.Violation("output-did-not-reach-the-target", features + ["target=path"],
+                                     "nothing was stored at the target path")
             output_text = bytes(data).decode(spec.get("encoding", "utf-8"))
             back_source = "out.txt"
             if fmt == "fixed":
